@@ -70,6 +70,57 @@ def predicates(tier):
     return ps
 
 
+# ---- the predicate grammar, exhaustively to depth 3 ------------------------------------------------------------------------
+# atoms chosen so that combinations are contradictions / tautologies / NULL-valued for some rows (the places where
+# two-valued reasoning about a predicate goes wrong): two halves of a partition of one column, a comparison with NULL,
+# a test of another column, IS NULL of the first column
+G_ATOMS = [("cmp", "k", ">=", 2), ("cmp", "k", "<", 2), ("cmp", "k", "=", None), ("cmp", "v", "=", "a"), ("isnull", "k"), ("colcmp", "n", ">", "k")]
+G_ROWS = tuple(sorted(UNIVERSE, key=repr))  # all six rows: NULL in every column somewhere, duplicates
+
+
+def grammar(depth, atoms):
+    """all predicates of nesting depth <= depth over the atoms (NOT p, p AND q, p OR q; AND/OR up to commutation)"""
+    levels = [list(atoms)]
+    allp = list(atoms)
+    for _ in range(depth - 1):
+        prev = levels[-1]
+        new = [("not", p_) for p_ in prev]
+        for p_ in prev:
+            for q_ in allp:
+                if repr(p_) <= repr(q_) or q_ not in prev:
+                    new.append(("and", p_, q_))
+                    new.append(("or", p_, q_))
+        levels.append(new)
+        allp += new
+    return allp
+
+
+def shape(p_):
+    t = p_[0]
+    if t in ("not",):
+        return f"not({shape(p_[1])})"
+    if t in ("and", "or"):
+        return f"{t}({shape(p_[1])},{shape(p_[2])})"
+    return t if t != "cmp" or p_[3] is not None else "cmp_null"
+
+
+def _cols_of(p_):
+    t = p_[0]
+    if t == "not":
+        return _cols_of(p_[1])
+    if t in ("and", "or"):
+        return _cols_of(p_[1]) + _cols_of(p_[2])
+    return [p_[1]]
+
+
+def gstep(item, acc: core.Acc, tier):
+    rows, st = item
+    pr = st[-1]
+    cs = _cols_of(pr)
+    extra = f",pred={shape(pr)},column_repeats={'yes' if len(set(cs)) < len(cs) else 'no'}"
+    return step((rows, st), acc, tier, extra)
+
+
 SETS = [
     (("const", "v", "z"),),
     (("incr", "n", 1),),
@@ -274,7 +325,7 @@ def run_case(rows, s):
     return got, after_rows, before == _others(raw)
 
 
-def step(item, acc: core.Acc, tier):
+def step(item, acc: core.Acc, tier, cls_extra=""):
     rows, s = item
     exp_rows, exp_n, exp_names = model_step(rows, s)
     got, after_rows, others_same = run_case(rows, s)
@@ -286,7 +337,7 @@ def step(item, acc: core.Acc, tier):
     if exp_n:
         acc.nontrivial((rows, s))
         acc.sample({"before": rows, "sql": stmt_sql(s), "expected_count": exp_n, "observed": got, "after": after_rows}, cap=2)
-    cls = classify(s, exp_n)
+    cls = classify(s, exp_n) + cls_extra
     rp = {"rows": rows, "stmt": s, "sql": stmt_sql(s)}
     fail = set()
     if got[0] != "ok":
@@ -452,6 +503,12 @@ def run(ctx: core.Ctx):
         res = ctx.pmap(step, items, recheck=False)
         frontier = sorted({post for _, post in res if post is not None and post not in seen}, key=repr)
         d += 1
+    # every predicate of the grammar to nesting depth 3 (quick: 4 atoms, thorough: 6), as DELETE and as UPDATE, on the
+    # six-row table: three-valued logic is where a rewrite of the WHERE clause goes wrong, and only for nested shapes
+    gp = grammar(3, G_ATOMS[:4] if ctx.quick else G_ATOMS)
+    gitems = [(G_ROWS, ("delete", p_)) for p_ in gp] + [(G_ROWS, ("update", SETS[0], p_)) for p_ in gp]
+    ctx.pmap(gstep, gitems, recheck=False)
+    ctx.extra["predicate_grammar"] = {"depth": 3, "atoms": len(G_ATOMS[:4] if ctx.quick else G_ATOMS), "predicates": len(gp), "statements": len(gitems)}
     for s in seen:
         ctx.acc.add("states", s)
     # scripts: all ordered pairs and triples of the chained statements from three row sets, through execute_string
